@@ -99,6 +99,20 @@ CHECKS = {
          "whether it closed it.",
     technique="TLA+ spec + TLC; TLC-generated ending scenarios replayed into the real daemon; TLC trace validation (monitor)",
     ref="6/C13"),
+ "C05": dict(
+    category="model_checking",
+    text="Daemon.tla model-checked for LoopAlive / Accounting / OpenUntouched under arbitrary client items; Gen_Hostile.tla enumerates attack "
+         "scripts (two attackers sending 26 classes of hostile items before or after a handshake, their disconnects, witness calls, fresh "
+         "connections, in every order up to a length, plus random walks); items are structure-aware mutations of valid CONNECT/INVOKE "
+         "messages (every header field, inconsistent length fields, annotation chunks, truncations followed by a disconnect, unknown "
+         "object/member, methods raising plain / unserialisable / str()-raising exceptions, oneway and batch failures); a real daemon of both "
+         "server types, with and without COMMTIMEOUT, is driven over the in-memory transport with a real Proxy as witness; TLC validates each "
+         "run against Trace_Daemon.tla (clauses C05.*: request loop alive, witness answers correct, fresh connections accepted, pool/selector "
+         "accounting restored, no hang).",
+    note="Trusted: concretisation of hostile item classes (seeded random boundary values), in-memory transport, TLC. A truncated message is always "
+         "followed by a disconnect (a silent stall is outside the statement). Nothing is required of what the attacker receives.",
+    technique="TLA+ spec + TLC; TLC-generated attack scripts replayed into the real daemon; TLC trace validation (monitor)",
+    ref="6/C05"),
 }
 NOT_YET = {}
 ALL = ["C%02d" % i for i in range(1, 21)]
